@@ -950,6 +950,17 @@ pub fn cmds_fields(a: &Args) {
                         n_build += 1;
                     }
                 }
+                // (5) the same setter again, on a creator that already holds a (near-)maximal / (near-)minimal value of
+                // this very field: the field carries the value set last, nothing of the earlier one survives
+                // (not for the additive ReqGroup, nor for McKey, whose encrypted form the specification can only check
+                // against the key of the final octets)
+                if *f != "ReqGroup" && *f != "McKey" {
+                    for high in [true, false] {
+                        let v = vec![(f.to_string(), extreme_arg(set, name, f, &mut rng, high)), (f.to_string(), arg.clone())];
+                        out.emit(&ev_build(set, name, &v));
+                        n_build += 1;
+                    }
+                }
             }
         }
         if *name == "McGroupStatusAns" {
